@@ -208,7 +208,7 @@ func fixture() error {
 
 func TestMain(m *testing.M) {
 	code := m.Run()
-	for _, p := range procs {
+	for _, p := range append(append([]*binfx.Proc{}, procs...), wirePs...) {
 		if p != nil {
 			p.Kill()
 		}
